@@ -17,7 +17,9 @@ type c18Writer struct{ written [][]byte }
 
 func (w *c18Writer) Write(p []byte) (int, error) { w.written = append(w.written, p); return len(p), nil }
 
-func VerifC18InitBsc() {
+func VerifC18InitBsc() { c18InitBsc() }
+
+func c18InitBsc() {
 	rt.Opt("structured-keys")
 	rt.Opt("exact-decimal")
 	rt.Override("github.com/teleport-network/teleport/x/xibc/clients/light-clients/bsc/types.sealHash", func(h Header, chainId *big.Int) common.Hash {
@@ -56,7 +58,9 @@ func VerifC18InitBsc() {
 // recorded signers of the old head and one stored consensus state. After a successful upgrade the store is what a fresh
 // Initialize would have produced for the new header: exactly one recorded signer (the sealer of the installed height) and
 // the header's own validator list as pending set - so that the next epoch switch installs the announced validators.
-func VerifC18UpgradeBsc() {
+func VerifC18UpgradeBsc() { c18UpgradeBsc() }
+
+func c18UpgradeBsc() {
 	rt.Opt("structured-keys")
 	rt.Opt("exact-decimal")
 	rt.Override("github.com/teleport-network/teleport/x/xibc/clients/light-clients/bsc/types.sealHash", func(h Header, chainId *big.Int) common.Hash {
